@@ -100,9 +100,9 @@ CLAIMED = {
    technique="Coq/Flocq proof over a model regenerated from the C source by a translator, plus extracted-model-vs-C correspondence",
    ref="3/C19"),
  "C20": dict(
-   text="Machine-checked proof (Coq + Flocq) about the Gallina function generated from blocking_struct.c on every run: the RFC 5052 quantities form a partition (exact layer, all B, L, E >= 1), and for all 32-bit inputs the binary64 computation returns exactly N = ceil(ceil(L/E)/B), A_large = ceil(T/N), A_small = floor(T/N) whenever it returns (partial: the value of I and definedness of the last conversion are covered by the correspondence: exhaustive for T, B <= 200 (1200 thorough), boundary grid to 2^32-1, directed random).",
-   note="Trusted: as C19, plus Blocking.v as the transcription of RFC 5052 section 9.1. The theorem about I (= T mod N) is not proved (named _partial in Properties_C20.v).",
-   technique="Coq/Flocq proof over a translator-generated model (partial for I) + extracted-model-vs-C correspondence with exact-integer oracle",
+   text="Machine-checked proof (Coq + Flocq) about the Gallina function generated from blocking_struct.c on every run: the RFC 5052 quantities form a partition (exact layer, all B, L, E >= 1), and for ALL 32-bit B, L, E >= 1 the binary64 computation is defined (no double->UINT32 conversion overflows) and returns exactly N = ceil(ceil(L/E)/B), A_large = ceil(T/N), A_small = floor(T/N), I = T mod N (Sterbenz exactness of A - A_small, 2^-21 error bound on the product, closest-int selection). The compiled C is tied in by the correspondence: exhaustive for T, B <= 200 (1200 thorough), boundary grid to 2^32-1, directed random, against the extracted model and an exact-integer oracle.",
+   note="Trusted: as C19, plus Blocking.v as the transcription of RFC 5052 section 9.1.",
+   technique="Coq/Flocq proof over a translator-generated model + extracted-model-vs-C correspondence with exact-integer oracle",
    ref="3/C20"),
 }
 checks = []
